@@ -3,5 +3,6 @@ INIT Init
 NEXT Next
 INVARIANT ValueOnly
 INVARIANT BindsContent
+INVARIANT RevealBindsKey
 INVARIANT Emit
 CHECK_DEADLOCK FALSE
